@@ -434,7 +434,7 @@ func (s *sys) procTimer() (vclock.Info, bool) {
 
 // roll fires the processor's timer and waits for its pass to complete. It
 // returns the parked waiters that came back ("[1 3]", anomalies appended), or
-// blocked=true when the processor sits in a channel send.
+// blocked=true when the processor is parked in a channel send.
 func (s *sys) roll() (obs string, blocked bool, err error) {
 	pt, ok := s.procTimer()
 	if !ok {
@@ -461,7 +461,10 @@ func (s *sys) waitProcessor() (blocked bool, err error) {
 			return false, nil
 		case <-time.After(2 * time.Millisecond):
 		}
-		if st := goStates()[s.wc.procGoid.Load()]; st == "chan send" {
+		// parked on its timer the processor is in "chan receive"; the original hand-off
+		// (select with default) never parks. Parked in a send (or in a select containing
+		// one) it waits for a receiver while holding the queue mutex.
+		if st := goStates()[s.wc.procGoid.Load()]; st == "chan send" || st == "select" {
 			return true, nil
 		}
 		if time.Since(start) > guard {
